@@ -17,11 +17,11 @@ type pendingViolation struct {
 }
 
 type exportState struct {
-	Counts     map[string]int64    `json:"counts"`
-	Distinct   map[string][]string `json:"distinct"`
-	Samples    []interface{}       `json:"samples"`
-	Violations []pendingViolation  `json:"violations"`
-	Inconcl    []string            `json:"inconclusive"`
+	Counts     map[string]int64       `json:"counts"`
+	Distinct   map[string][]string    `json:"distinct"`
+	Samples    []interface{}          `json:"samples"`
+	Violations []pendingViolation     `json:"violations"`
+	Inconcl    []string               `json:"inconclusive"`
 	Extra      map[string]interface{} `json:"extra"`
 }
 
